@@ -1217,6 +1217,11 @@ def audit(out: OutputBuffer, aconf: AuditConf, sshv: Optional[int] = None, print
         s.send_kexinit()  # Send the algorithms we support (except we don't since this isn't a real SSH connection).
 
         packet_type, payload = s.read_packet(sshv)
+
+        # Skip any & all MSG_DEBUG messages the server sends before its KEXINIT (as the host key and GEX probes already do).
+        while sshv == 2 and packet_type == Protocol.MSG_DEBUG:
+            packet_type, payload = s.read_packet(sshv)
+
         if packet_type < 0:
             try:
                 if len(payload) > 0:
